@@ -406,6 +406,49 @@ class Item:
                          "signature": " ".join(texts(sig)), "why": why, "pre": pre, "post": post,
                          "drops": "the rest of the enclosing function; captured variables become parameters"})
 
+    def lift_stmts(self, anchor_src, nth, count, new_sig_src, post="", why=""):
+        """Like lift-block, for `count` consecutive statements: the statements starting at the nth occurrence of
+        `anchor` (each up to its terminating `;` at the same bracket depth) become, verbatim, the body of a new
+        function with the declared signature; `post` (e.g. the tuple of the variables they define) is appended as
+        the tail expression."""
+        pat = texts(tokenize(anchor_src))
+        o = self.body_open()
+        hits = [h for h in find_seq(self.toks, pat) if h > o]
+        if len(hits) < nth or nth < 1:
+            raise LostAnchor("lift-stmts: anchor `%s` occurs %d times in %s, wanted #%d" % (" ".join(pat), len(hits), self.path, nth))
+        h = hits[nth - 1]
+        T = self.toks
+        q = h
+        for _s in range(count):
+            d = 0
+            while q < len(T):
+                t = T[q].s
+                if t in OPEN:
+                    d += 1
+                elif t in CLOSE:
+                    if d == 0:
+                        raise LostAnchor("lift-stmts: statement after `%s` in %s is not terminated by `;`" % (" ".join(pat), self.path))
+                    d -= 1
+                elif t == ";" and d == 0:
+                    break
+                q += 1
+            q += 1
+        stmts = T[h:q]
+        sig = tokenize(new_sig_src)
+        line = stmts[0].line
+        w1 = tokenize("{")
+        w2 = tokenize((post or "") + " }")
+        for t in sig + w1 + w2:
+            t.line = line
+        self.line = stmts[0].line
+        self.end_line = stmts[-1].line
+        stmts[0].ws = " "
+        self.toks = sig + w1 + stmts + w2
+        self.original = render(stmts).strip()
+        self.log.append({"kind": "lift-block", "what": "lift-stmts", "anchor": " ".join(pat), "nth": nth, "count": count,
+                         "signature": " ".join(texts(sig)), "post": post, "why": why,
+                         "drops": "the rest of the enclosing function; variables read become parameters"})
+
     def abstract_span(self, anchor_src, nth, tail_src, rep_src, why="", groups=1):
         """Replace `anchor` + the bracket group that directly follows it + the literal `tail` tokens by the
         replacement (a call to a declared stand-in).  Unlike `replace`, the content of the group is not
